@@ -137,6 +137,19 @@ def build_harness(name, flavor='asan', sources=None, extra=(), link_lib=True, wh
     deps = list(srcs)
     for root, _, files in sorted(os.walk(HARNESS)):          # headers shared between probes
         deps += [os.path.join(root, f) for f in sorted(files) if f.endswith(('.hxx', '.h', '.hpp'))]
+    # files of the harness directory a source pulls in with #include "..." (probes include each other's .cxx / .inc), transitively
+    todo, seen = list(srcs), set(srcs)
+    while todo:
+        f = todo.pop()
+        try:
+            text = open(f, errors='replace').read()
+        except OSError:
+            continue
+        for inc in re.findall(r'^\s*#\s*include\s+"([^"]+)"', text, re.M):
+            g = os.path.normpath(os.path.join(os.path.dirname(f), inc))
+            if g not in seen and os.path.isfile(g):
+                seen.add(g); todo.append(g)
+                if g not in deps: deps.append(g)
     for f in deps:
         with open(f, 'rb') as fh:
             hh.update(os.path.basename(f).encode() + fh.read())
